@@ -54,6 +54,26 @@ def superset(rng, S, p=0.35):
     return sorted(set(S) | {i for i in range(21) if rng.random() < p})
 
 
+INDEX_KINDS = ["default", "offset", "shuffled-labels", "volume-as-index", "strings"]
+
+
+def reindex(df, kind, rng=None):
+    """Give the table another (still unique) row index; row positions and values are untouched."""
+    n = len(df)
+    if kind == "default" or n == 0:
+        return df
+    df = df.copy()
+    if kind == "offset":
+        df.index = range(3, 3 + n)
+    elif kind == "shuffled-labels":
+        df.index = (rng.permutation(n) if rng is not None else numpy.arange(n)[::-1])
+    elif kind == "volume-as-index":
+        df.index = [round(700.0 - 7.5 * i, 3) for i in range(n)]
+    elif kind == "strings":
+        df.index = ["v%02d" % i for i in range(n)][::-1]
+    return df
+
+
 def make_frame(field, supplied, rng=None, extra=None, upper=False, shuffle=False, as_int=False, volumes=True):
     """DataFrame with a V column, the supplied modulus columns and optional extra columns."""
     import pandas
